@@ -2,6 +2,19 @@ package main
 
 import "fmt"
 
+// ignoredPartTemplates: a version template without and with the part Compare ignores.
+func ignoredPartTemplates(eco string) (plain, suffixed string) {
+	switch eco {
+	case "pypi":
+		return "{d}.{d}", "{d}.{d}+{l}{l}"
+	case "semver", "npm", "cargo", "hex", "nuget", "composer":
+		return "{d}.{d}.{d}", "{d}.{d}.{d}+{n}{n}"
+	case "golang":
+		return "v{d}.{d}.{d}", "v{d}.{d}.{d}+{n}{n}"
+	}
+	return "", ""
+}
+
 func init() {
 	registerCheck(&CheckDef{
 		ID:    "C20",
@@ -25,6 +38,19 @@ func init() {
 				vs := pick(eco, all, nv-2)
 				// spelling variants that can compare equal (1 / 1.0 / 1.0.0) are in the must-have set
 				vt := pick(eco, all, nt-2)
+				// parts of a version that Compare ignores (build metadata, pypi local label): the
+				// bound of the range and the candidates carry them in different spellings
+				if plain, suff := ignoredPartTemplates(eco); plain != "" {
+					for _, op := range opsTable[eco].ops {
+						if eco == "pypi" && (op == "===" || op == "~=") {
+							continue
+						}
+						for _, b := range []string{plain, suff} {
+							id := fmt.Sprintf("C20/cong/%s/%s%s/ignored/%s", eco, op, suff, b)
+							out = append(out, &Config{ID: id, Pkg: zzhPkg, Func: "C20Cong", Args: []ArgSpec{ArgStr(eco), ArgTmpl(op + suff), ArgTmpl(suff), ArgTmpl(b)}})
+						}
+					}
+				}
 				for _, r := range rs {
 					if eco == "pypi" && len(r) >= 3 && r[:3] == "===" {
 						continue
@@ -49,7 +75,7 @@ func init() {
 			return out
 		},
 		Bounds: func(tier string) string {
-			return "ranges: comparator forms per DESIGN B.1 plus shorthand constructs per B.4 (thinned to 12 quick / 40 thorough per ecosystem); versions: 5 (12) grammar templates for pairs, 3 (7) for triples; pypi '===' excluded; alpm pairs differing in pkgrel presence excluded"
+			return "ranges: comparator forms per DESIGN B.1 plus shorthand constructs per B.4 (thinned to 12 quick / 40 thorough per ecosystem); versions: 5 (12) grammar templates for pairs, 3 (7) for triples; pypi '===' excluded; one comparator range per operator whose bound and candidates carry build metadata / a pypi local label; alpm pairs differing in pkgrel presence excluded"
 		},
 	})
 }
